@@ -503,6 +503,14 @@ class WsgiApplication(HttpBase):
         except Exception as e:
             logger.exception(e)
             p_ctx.out_error = Fault('Server', get_fault_string_from_exception(e))
+
+            # the response is now a fault: drop what was built for the return
+            # value, let the fault decide the status and tell the listeners.
+            p_ctx.out_document = None
+            p_ctx.out_string = None
+            p_ctx.transport.resp_code = None
+            p_ctx.fire_event('method_exception_object')
+
             return self.handle_error(p_ctx, others, p_ctx.out_error,
                                                                  start_response)
 
